@@ -58,6 +58,7 @@ type allocProbe struct {
 func RunC19(c *Ctx) {
 	debug.SetGCPercent(-1)
 	defer debug.SetGCPercent(100)
+	c19AfterGC(c) // first, while the worker's heap is still small
 	var i64 int64
 	var i32 int32
 	var in int
@@ -591,6 +592,88 @@ func c19Histories(c *Ctx) {
 					c.Rec.AddViolation(h.Violation{Property: c.Prop, Oracle: "a successful call allocates after the warmed Buffer went through another call", Entry: tg.name, Family: cs.Family, Desc: cs.Desc,
 						InputB64: b64(d), InputQ: h.Quote(d), Script: ds.name, Expected: "0 heap allocations in the measured call", Observed: fmt.Sprintf("%d, %d, %d allocations in three repetitions of the history", deltas[0], deltas[1], deltas[2]), Seed: c.Seed, Tier: c.Tier})
 				}
+			}
+		}
+	}
+}
+
+// c19AfterGC: one measured call right after two garbage collections, which empty every sync.Pool:
+// scratch that a function keeps in a package-level pool is then allocated again, on a call that
+// succeeds (seeded change C19r8-m1: the 824-byte decimal of the slow float path moved into a pool;
+// testing.AllocsPerRun and every warmed-up measurement still report 0).
+func c19AfterGC(c *Ctx) {
+	if c.NShards > 1 && c.Shard != 0 {
+		return
+	}
+	if c.Replay != nil {
+		return
+	}
+	nums := []string{"1", "-0", "12345678901234567", "1.5e300", "9007199254740993", "9007199254740993.00000001", "4.9406564584124654e-324", "2.2250738585072011e-308",
+		"1.00000000000000011102230246251565404236316680908203125", "179769313486231580793728971405303415079934132710037826936173778980444968292764750946649017977587207096330286416692887910946555547851940402630657488671505820681908902000708383676273854845817711531764475730270069855571366959622842914819860834936475292719074168444365510704342711559699508093042880177904174497791", "123456789012345678901234567890", "0.000000000000000000000000000000000000000000001e-300"}
+	docs := []string{`[1,{"a":[true,null]},"s\n"]`, `{"k":{"n":[1.5,2e10,[[]]]},"z":"abc"}`}
+	strs := []string{`"plain"`, `"esc\n\u00e9\ud83d\ude00"`, `"\ud800"`}
+	var f float64
+	var i64 int64
+	warm := &rjson.Buffer{}
+	dst := make([]byte, 0, 256)
+	type tcall struct {
+		name string
+		ins  []string
+		f    func(d []byte) error
+	}
+	calls := []tcall{
+		{"ReadFloat64", nums, func(d []byte) error { _, _, e := rjson.ReadFloat64(d); return e }},
+		{"DecodeFloat64", nums, func(d []byte) error { _, e := rjson.DecodeFloat64(d, &f); return e }},
+		{"ReadInt64", nums[:3], func(d []byte) error { _, _, e := rjson.ReadInt64(d); return e }},
+		{"DecodeInt64", nums[:3], func(d []byte) error { _, e := rjson.DecodeInt64(d, &i64); return e }},
+		{"ReadUint64", nums[:1], func(d []byte) error { _, _, e := rjson.ReadUint64(d); return e }},
+		{"SkipValue", docs, func(d []byte) error { _, e := rjson.SkipValue(d, warm); return e }},
+		{"SkipValueFast", docs, func(d []byte) error { _, e := rjson.SkipValueFast(d, warm); return e }},
+		{"Valid", docs, func(d []byte) error {
+			if !rjson.Valid(d, warm) {
+				return errHandlerAbort
+			}
+			return nil
+		}},
+		{"HandleArrayValues(declining handler)", docs[:1], func(d []byte) error { _, e := rjson.HandleArrayValues(d, nopArrayHandler{}, warm); return e }},
+		{"HandleObjectValues(skipping handler sharing the Buffer)", docs[1:], func(d []byte) error {
+			_, e := rjson.HandleObjectValues(d, skipObjectHandler{warm}, warm)
+			return e
+		}},
+		{"ReadStringBytes", strs, func(d []byte) error { _, _, e := rjson.ReadStringBytes(d, dst[:0]); return e }},
+		{"UnescapeStringContent", strs, func(d []byte) error { _, _, e := rjson.UnescapeStringContent(d[1:len(d)-1], dst[:0]); return e }},
+		{"NextTokenType", docs, func(d []byte) error { _, _, e := rjson.NextTokenType(d); return e }},
+	}
+	cs := &h.Case{Family: "C19-after-gc"}
+	for _, tc := range calls {
+		for _, in := range tc.ins {
+			d := []byte(in)
+			if tc.f(d) != nil {
+				continue
+			}
+			var deltas [3]uint64
+			always := true
+			for rep := 0; rep < 3; rep++ {
+				tc.f(d)
+				runtime.GC()
+				runtime.GC()
+				runtime.ReadMemStats(&msA)
+				err := tc.f(d)
+				runtime.ReadMemStats(&msB)
+				deltas[rep] = msB.Mallocs - msA.Mallocs
+				c.Rec.Evals(2)
+				if err != nil || deltas[rep] == 0 {
+					always = false
+				}
+			}
+			c.Rec.C("measurements_right_after_two_garbage_collections")
+			c.Rec.R.Cases++
+			c.Rec.R.Nontrivial++
+			if always {
+				cs.Input = d
+				cs.Desc = "warm-up call, two garbage collections, then one measured " + tc.name + " call"
+				c.Rec.AddViolation(h.Violation{Property: c.Prop, Oracle: "a successful call allocates right after garbage collections (scratch kept in a pool that the collector empties)", Entry: tc.name, Family: cs.Family, Desc: cs.Desc,
+					InputB64: b64(d), InputQ: h.Quote(d), Script: "after-gc", Expected: "0 heap allocations in the measured call", Observed: fmt.Sprintf("%d, %d, %d allocations in three repetitions", deltas[0], deltas[1], deltas[2]), Seed: c.Seed, Tier: c.Tier})
 			}
 		}
 	}
